@@ -104,11 +104,16 @@ def gen(rng, tier):
     add(0, ["hasreceiver"], "true")
     add(0, ["terminate", 10.0], "any")
     return {"gateways": specs, "actors": actors, "expect": {str(k): val for k, val in expect.items()},
-            "knobs": knobs, "strategy": L.gen_strategy(rng), "preempt": L.gen_preempt(rng, 3000), "faults": faults,
+            "knobs": knobs, "strategy": L.gen_strategy(rng), "preempt": L.gen_preempt(rng, 3000), "preempt_at": L.gen_preempt_at(rng, ["_local_schedulexec", "executetask", "_executetask_finished", "_try_send_to_primary_thread", "integrate_as_primary_thread", "spawn", "_perform_spawn", "run"]), "faults": faults,
             "transport": transport, "gwi": gwi, "bodies": bodies, "errtext_limit": 3000}
 
 
 def shrink_cases(case):
+    if case.get("preempt_at"):
+        for i in range(len(case["preempt_at"])):
+            c = dict(case)
+            c["preempt_at"] = case["preempt_at"][:i] + case["preempt_at"][i + 1:]
+            yield c
     if case.get("preempt"):
         for i in range(len(case["preempt"])):
             c = dict(case)
